@@ -237,7 +237,11 @@ def run(pid: str, tier: str, seed: int, selftest=False, replay=None) -> int:
         small3 = [t for t in progs if sum(1 for x in t if x not in (")", "E")) <= 3 and single_region(t)]
         sandwiches = [("J1",) + tuple(t) + (post,) for t in small3 for post in ("J1", "J2")]
         rep.extra["two_accelerator_sandwiches"] = len(sandwiches)
-        progs = list(progs) + deep + sandwiches
+        # one accelerator configured before, inside and after a region whose body contains a call (the call-free ones are part of the
+        # 5-node enumeration): what the later setup may rely on depends on what each arm / the loop body leaves behind
+        around = [("I1",) + tuple(t) + (post,) for t in small3 if "C" in t or "S" in t for post in ("I1", "I2")]
+        rep.extra["configured_around_regions_with_calls"] = len(around)
+        progs = list(progs) + deep + sandwiches + around
         n_small = 0
         for toks in progs:
             if pid == "C06" and not one_setup_per_nest(toks):
